@@ -202,6 +202,14 @@ func TypedRelay(hook Hook) Interposer {
 				return
 			}
 			if _, err := dst.Write(c.b); err != nil {
+				if st.FromRenter && i+1 < len(flow) {
+					// the host has already answered (with an error) and closed:
+					// hand its answer to the renter as a real stream would
+					var re *rhp4.RPCError
+					if rerr := rhp4.ReadResponse(host, flow[i+1].New()); errors.As(rerr, &re) {
+						rhp4.WriteResponse(renter, re)
+					}
+				}
 				return
 			}
 			if st.RawAfter != nil {
